@@ -5,12 +5,27 @@ from ..framework import Check
 from .. import fieldlib as fl, families, lib
 
 
+# real-valued fields draw their texts and values from one small pool, so that the same number - and numbers that compare equal
+# but are written differently (the two zeros) - recur down a column and across the objects sharing a Field
+FLOAT_POOL = [0.0, -0.0, 0.0, -0.0, 1.5, -1.5, 2.25, 12.5, 0.5, -0.25, 1.5]
+
+
+def float_text(rng, fd):
+    if rng.random() < 0.1:
+        return rng.choice(["", "x"])
+    return ("%.*" + fd["fmt"]) % (fd["dd"], rng.choice(FLOAT_POOL))
+
+
 def gen_line(rng):
     fs = []
     pos = 0
     for _ in range(rng.randint(1, 3)):
-        k = rng.choice(["int", "lit", "int", "int", "lit", "int", "date"])
+        k = rng.choice(["int", "lit", "int", "int", "lit", "int", "date", "float", "float"])
         fd = {"k": k, "size": rng.randint(2, 5), "start": pos}
+        if k == "float":
+            fmt = rng.choice("FFE")
+            dd = rng.randint(1, 3)
+            fd = {"k": "float", "size": dd + (7 if fmt == "E" else 4) + rng.randint(0, 2), "start": pos, "dd": dd, "fmt": fmt, "sep": "."}
         if k == "date":
             # a format list whose formats parse the same text differently: what one object reads must not depend on what
             # another object sharing the Field read before
@@ -30,6 +45,8 @@ def gen_text_delim(rng, fs):
     for fd in fs[: rng.randint(0, len(fs))] if rng.random() < 0.5 else fs:
         if fd["k"] == "date":
             toks.append(date_text(rng))
+        elif fd["k"] == "float":
+            toks.append(float_text(rng, fd))
         elif fd["k"] == "int":
             toks.append(str(rng.randint(0, 10 ** (fd["size"] - 1) - 1)) if rng.random() < 0.85 else "x")
         else:
@@ -44,6 +61,8 @@ def gen_text(rng, fs):
     for fd in fs:
         if fd["k"] == "date":
             t = date_text(rng)
+        elif fd["k"] == "float":
+            t = float_text(rng, fd).rjust(fd["size"])
         elif fd["k"] == "int":
             t = str(rng.randint(0, 10 ** (fd["size"] - 1) - 1)).rjust(fd["size"]) if rng.random() < 0.85 else "x".rjust(fd["size"])
         else:
@@ -59,6 +78,8 @@ def gen_val(rng, fd):
         return ["date", [rng.choice([1999, 2020]), rng.choice([1, 2, 12]), rng.choice([1, 2, 12, 25]), 0, 0, 0, 0]]
     if fd["k"] == "int":
         return ["int", rng.randint(0, 10 ** (fd["size"] - 1) - 1)]
+    if fd["k"] == "float":
+        return ["float", fl.f2b(rng.choice(FLOAT_POOL))]
     return ["str", "".join(rng.choice("xyz") for _ in range(rng.randint(1, fd["size"])))]
 
 
